@@ -98,6 +98,10 @@ type Exec struct {
 	symN      map[string]int
 	inputs    []*Term
 	steps     int
+	ivMemo    map[int]ival // ranges under the current bounds (dropped when a bound tightens)
+	noFold    bool
+	Folded    int
+	hangAt    int // VerifStepBound: step count at which the path counts as not terminating
 	depth     int
 	cur       *G
 	gs        []*G
@@ -300,7 +304,10 @@ func (x *Exec) quick(c *Term) int {
 	if x.pcSet[x.ts.Not(c).ID] {
 		return 0
 	}
-	return x.decide(c, map[int]ival{})
+	if x.ivMemo == nil {
+		x.ivMemo = map[int]ival{}
+	}
+	return x.decide(c, x.ivMemo)
 }
 
 // Branch decides a symbolic condition for this path, scheduling the other side if feasible.
@@ -947,6 +954,7 @@ func (x *Exec) resetPath() {
 	x.symN = map[string]int{}
 	x.inputs = nil
 	x.steps = 0
+	x.hangAt = 0
 	x.depth = 0
 	x.gs = nil
 	x.cur = nil
@@ -968,6 +976,7 @@ func (x *Exec) resetPath() {
 	x.lastNow = [2]*Term{}
 	x.unknownBranch = false
 	x.bounds = nil
+	x.ivMemo = nil
 	x.pendingSigned = nil
 	x.pcSet = map[int]bool{}
 	x.allocMax = 0
@@ -1029,7 +1038,11 @@ func (x *Exec) Explore(entry *ssa.Function) *Report {
 			x.MaxDepthDec = len(x.dec)
 		}
 		if x.cfg.Trace {
-			fmt.Fprintf(os.Stderr, "path %d: %s %s (decisions %d, steps %d)\n", x.Paths, pe.kind, firstLine(pe.msg), len(x.dec), x.steps)
+			m := firstLine(pe.msg)
+			if pe.kind == "unwind" || pe.kind == "unsupported" {
+				m = pe.msg
+			}
+			fmt.Fprintf(os.Stderr, "path %d: %s %s (decisions %d, steps %d)\n", x.Paths, pe.kind, m, len(x.dec), x.steps)
 		}
 		switch pe.kind {
 		case "done", "infeasible", "violation-stop":
